@@ -15,16 +15,19 @@ Model: `PMF`.  Every activation of a step function or continuation is logged in 
 
 Transparency itself ("the executed steps, the context and the final result are those of the uninterrupted run") is proved
 below as a simulation between the run with pause/play requests and the run of its *reference history* (the same history
-without pause and play and without some of its ticks), for three nested classes of histories of ticks, pause and play requests
-placed anywhere, and wake-up requests (`resume`, completion of an awaited future, its done-callback, `call_soon`, a
-non-raising callback) placed
+without pause and play and without some of its ticks; in the fourth class some ticks are also moved later), for four nested
+classes of histories of ticks, pause and play requests placed anywhere, and wake-up requests (`resume`, completion of an
+awaited future, its done-callback, `call_soon`, a non-raising callback) placed
 * at moments at which no pause is in effect (`C05_transparent_partial`, `PM/Proof12.lean`);
 * also while the process is held by a pause on a wait (`C05_transparent_partial2`, `PM/Proof14.lean`);
 * also between a pause request that interrupted a pending wait and the next tick (`C05_transparent_partial3`,
-  `PM/Proof16.lean`; fuel hypothesis with one iteration of slack).
-Still excluded: wake-ups while the process is held at a step boundary in CREATED or RUNNING (the reference run is then ahead
-by the next step, and the wake-up has to be moved *before* the tick that ended the previous step), and histories with
-kill / fail / cancel / failing callbacks.  The unrestricted statement `C05_transparent_full` is **false** as it stands
+  `PM/Proof16.lean`; fuel hypothesis with one iteration of slack);
+* also — `resume`, `call_soon`, non-raising callbacks, the completion of futures the state just left did not await — while the
+  process is held at a step boundary in CREATED or RUNNING (`C05_transparent_partial4`, `PM/Proof17.lean`, `Proof18.lean`): the
+  reference run is then ahead by the next step, and the reference history delivers those requests *before* the tick that ended
+  the previous step, by deferring that tick.
+Still excluded: during such a hold, the completion of a future that the state just left awaited and the run of a done-callback;
+histories with kill / fail / cancel / failing callbacks.  The unrestricted statement `C05_transparent_full` is **false** as it stands
 (`C05_transparent_full_false`, `PM/Proof15.lean`: a program that awaits one future under two context keys — the real
 `to_context` keeps one key per future); the statement to aim at is `C05_transparent_full_distinct`.  The interleavings outside
 the proved classes are decided by the Python monitor `c05-transparent` only.
@@ -264,7 +267,12 @@ example : ¬ B10.AwDistinct dupP := by
 /-- **transparency, full statement for programs that never await the same future twice in one `ToContext`** (`AwDistinct`,
 the dict semantics of `Waiting._awaiting`).  Not proved: `C05_transparent_full_on_partial3` proves the instances in which the
 wake-ups arrive anywhere except while the process is held at a step boundary in CREATED or RUNNING, with the identity
-permutation.  An exhaustive search (Lean interpreter, all `admissibleFull` histories of length ≤ 11 of a two-wait workchain
+permutation and an erasure; `C05_transparent_full_on_partial4` adds, at those positions, `resume`, the completion of a future
+that the state just left did not await (and `call_soon` / non-raising callbacks, which `admissibleFull` does not mention),
+again with the identity permutation of the requests, ticks being moved.  Missing: at those positions, the completion of a
+future the state just left awaited (its done-callback is scheduled in one run and dropped by `Waiting.exit` in the other: the
+relation would have to tolerate a scheduled callback that never runs) and the run of a done-callback (it has to file the
+result under the same key on a WAITING state and on a state that was left — where `AwDistinct` is needed).  An exhaustive search (Lean interpreter, all `admissibleFull` histories of length ≤ 11 of a two-wait workchain
 with synchronous and asynchronous steps, ≈ 170 000 terminated histories) found no counterexample, and none that needs a
 reordering of the requests: in the model, moving ticks suffices (in ≈ 20 000 of them the erasure `unpaused` does not work and
 a wake-up has to come *before* the tick that ended the previous step).  On the real library the loop is FIFO, so there the
